@@ -401,7 +401,7 @@ def run(ctx):
         with open(path) as fh:
             check_case(ctx, model, json.load(fh))
         ctx.count("corpus_cases")
-    n_scenes, ncrops = (18, 2) if ctx.tier == "quick" else (400, 4)
+    n_scenes, ncrops = (18, 2) if ctx.tier == "quick" else (300, 4)
     n_big = 1 if ctx.tier == "quick" else 12
     for i in range(n_scenes + n_big):
         if i >= n_scenes:
